@@ -292,10 +292,11 @@ def update_metadata_three(t1: int, u1: int, u2: int, u3: int, tgt1: int, tgt2: i
   """
   import os
   args = (t1, u1, u2, u3, tgt1, tgt2, tgt3, as_proto)
-  t1c, t2, n, as_proto, us, tgts = _md_args(1, t1, 1, u1, u2, u3, tgt1, tgt2, tgt3, 3, as_proto, 3, 4)
+  u1, tgt1 = conc(u1, 0, 4), conc(tgt1, 0, 3)          # the slicing variables first: a slice explores only its own paths
   sl = os.environ.get('VERIF_SLICE')
-  if sl is not None and (us[0] * 4 + tgts[0]) % 10 != int(sl):
+  if sl is not None and (u1 * 4 + tgt1) % 10 != int(sl):
     return True
+  t1c, t2, n, as_proto, us, tgts = _md_args(1, t1, 1, u1, u2, u3, tgt1, tgt2, tgt3, 3, as_proto, 3, 4)
   return _update_metadata(1, t1c, t2, us, tgts, as_proto, args)
 
 
